@@ -14,6 +14,7 @@ import json
 import os
 import random
 import re
+import time
 
 from vlib import core
 from checks import cli_shapes as SH
@@ -254,6 +255,11 @@ def judge_inputs(rng, tier, renders):
             for l in litl:
                 out.append({"s": s, "a": [l, t], "why": "after-literal"})
             out.append({"s": s, "a": [t, b("-h")], "why": "before-help"})
+        # long lines: every option literal of the top level 60 times with a value
+        for f in shape["fields"]:
+            for l in SH.lits(f):
+                grp = [b(l)] if f["kind"] == "flag" else [b(l), b("7")]
+                out.append({"s": s, "a": grp * 60, "why": "many"})
         # literal look-alikes
         for l in litl:
             ls = bytes(l).decode()
@@ -379,68 +385,70 @@ def run(tier):
 
     model_selfcheck(chk, tier)
     n_help = check_helps(chk, bindir)
-    core.log("FastIsFull self-check, %d help texts (%.0fs)" % (n_help, __import__("time").time() - chk.t0))
-    # ---- TLC: transcription vs definition on all lists / all renderings; vectors
-    vec_lists = []
+    core.log("FastIsFull self-check, %d help texts (%.0fs)" % (n_help, time.time() - chk.t0))
+    # ---- TLC: transcription vs definition on all lists / all renderings; vectors; real runs.
+    # One batch at a time (generate -> run the real parser -> compare -> forget) bounds memory.
+    st = {"nontrivial": set(), "drift": 0, "arm_runs": {a: 0 for a in ARMS}, "model_bad": 0, "confirmed_model_bad": 0,
+          "per_shape": {}, "n": {"lists": 0, "render": 0}, "i": 0}
+    render_sample = []
+
+    def batch(mode, sel, ml, tag):
+        vecs = gen(chk, mode, sel, ml, tier, tag)
+        lines = run_driver(chk, bindir, vecs, "gen_" + tag)
+        st["n"][mode] += len(vecs)
+        for v, raw in zip(vecs, lines):
+            out = normalise(raw)
+            chk.evaluations += 1
+            side_checks(chk, v["s"], v["a"], raw)
+            model_ok = v["trok"] and v["rt"]
+            if not model_ok:
+                st["model_bad"] += 1
+                chk.extra.setdefault("model_level_failure_first", {"s": v["s"], "args": show_args(v["a"]), "trok": v["trok"], "rt": v["rt"]})
+            if accepts(v["adm"], out):
+                chk.traces += 1
+            else:
+                violate(chk, mode, v["s"], v["a"], out, v["adm"], raw)
+                if not model_ok:
+                    st["confirmed_model_bad"] += 1
+            # model conformance: the real parser against the transcription (drift is not a verdict)
+            tr = v["tr"]
+            same = (out["r"] == "ok" and tr["ok"] and tr["v"] == out["v"]) or \
+                   (out["r"] == "err" and not tr["ok"] and tr["lvl"] == out["lvl"] and
+                    (tr["kind"] == out["kind"] or out["kind"] in ("Overflow", "Other")))
+            if same:
+                for a in v["arms"]:
+                    st["arm_runs"][a] += 1
+            else:
+                st["drift"] += 1
+                chk.extra.setdefault("first_drift", {"shape": SH.SHAPES[v["s"] - 1]["name"], "args": show_args(v["a"]),
+                                                     "transcription": show_adm([tr]), "real": show_out(out)})
+            if v["a"]:
+                st["nontrivial"].add((v["s"], adm_class(v["adm"]), out_class(out), len(v["a"])))
+            ps = st["per_shape"].setdefault(SH.SHAPES[v["s"] - 1]["name"], {"lists": 0, "renderings": 0, "ok": 0, "err": 0})
+            ps["lists" if mode == "lists" else "renderings"] += 1
+            ps["ok" if out["r"] == "ok" else "err"] += 1
+            if st["i"] % 9973 == 0:
+                chk.sample({"shape": SH.SHAPES[v["s"] - 1]["name"], "args": show_args(v["a"]), "admissible": show_adm(v["adm"]),
+                            "real": show_out(out)})
+            st["i"] += 1
+            if mode == "render" and (len(render_sample) < 20000 or rng.random() < 0.05):
+                render_sample.append({"s": v["s"], "a": v["a"]})
+        core.log("%s: %d vectors, real parser run and compared (%.0fs)" % (tag, len(vecs), time.time() - chk.t0))
+
     bounds = {}
     if tier == "quick":
-        vec_lists = gen(chk, "lists", shapes, maxlen, tier, "lists")
+        batch("lists", shapes, maxlen, "lists")
         bounds = {SH.SHAPES[s - 1]["name"]: maxlen for s in shapes}
     else:
-        for s in shapes:   # one run per shape keeps TLC's output in memory bounded
+        for s in shapes:
             ml = maxlen + 1 if len(SH.alphabet(SH.SHAPES[s - 1])) <= 12 else maxlen
             bounds[SH.SHAPES[s - 1]["name"]] = ml
-            vec_lists += gen(chk, "lists", [s], ml, tier, "lists%d" % s)
-    core.log("lists: %d vectors (%.0fs)" % (len(vec_lists), __import__("time").time() - chk.t0))
-    vec_render = gen(chk, "render", shapes, maxlen, tier, "render")
-    core.log("render: %d vectors (%.0fs)" % (len(vec_render), __import__("time").time() - chk.t0))
-    vecs = vec_lists + vec_render
-    n_lists = len(vec_lists)
-
-    model_bad = [v for v in vecs if not v["trok"] or not v["rt"]]
-    lines = run_driver(chk, bindir, vecs, "gen")
-    nontrivial = set()
-    drift = 0
-    arm_runs = {a: 0 for a in ARMS}
-    confirmed_model_bad = 0
-    per_shape = {}
-    for i, (v, raw) in enumerate(zip(vecs, lines)):
-        out = normalise(raw)
-        mode = "lists" if i < n_lists else "render"
-        chk.evaluations += 1
-        ok = accepts(v["adm"], out)
-        side_checks(chk, v["s"], v["a"], raw)
-        if ok:
-            chk.traces += 1
-        else:
-            violate(chk, mode, v["s"], v["a"], out, v["adm"], raw)
-            if not v["trok"] or not v["rt"]:
-                confirmed_model_bad += 1
-        # model conformance: the real parser against the transcription (drift is not a verdict)
-        tr = v["tr"]
-        same = (out["r"] == "ok" and tr["ok"] and tr["v"] == out["v"]) or \
-               (out["r"] == "err" and not tr["ok"] and tr["lvl"] == out["lvl"] and
-                (tr["kind"] == out["kind"] or out["kind"] in ("Overflow", "Other")))
-        if same:
-            for a in v["arms"]:
-                arm_runs[a] += 1
-        else:
-            drift += 1
-            if "first_drift" not in chk.extra:
-                chk.extra["first_drift"] = {"shape": SH.SHAPES[v["s"] - 1]["name"], "args": show_args(v["a"]),
-                                            "transcription": show_adm([tr]), "real": show_out(out)}
-        if v["a"]:
-            nontrivial.add((v["s"], adm_class(v["adm"]), out_class(out), len(v["a"])))
-        ps = per_shape.setdefault(SH.SHAPES[v["s"] - 1]["name"], {"lists": 0, "renderings": 0, "ok": 0, "err": 0})
-        ps["lists" if mode == "lists" else "renderings"] += 1
-        ps["ok" if out["r"] == "ok" else "err"] += 1
-        if i % 9973 == 0:
-            chk.sample({"shape": SH.SHAPES[v["s"] - 1]["name"], "args": show_args(v["a"]), "admissible": show_adm(v["adm"]),
-                        "real": show_out(out)})
-    if model_bad:
-        chk.extra["model_level_failures"] = {"count": len(model_bad), "confirmed_on_real_code": confirmed_model_bad,
-                                            "first": {"s": model_bad[0]["s"], "args": show_args(model_bad[0]["a"]),
-                                                      "trok": model_bad[0]["trok"], "rt": model_bad[0]["rt"]}}
+            batch("lists", [s], ml, "lists%d" % s)
+    batch("render", shapes, maxlen, "render")
+    n_lists, n_render = st["n"]["lists"], st["n"]["render"]
+    nontrivial, drift, per_shape, arm_runs = st["nontrivial"], st["drift"], st["per_shape"], st["arm_runs"]
+    if st["model_bad"]:
+        chk.extra["model_level_failures"] = {"count": st["model_bad"], "confirmed_on_real_code": st["confirmed_model_bad"]}
     chk.extra["transcription_drift"] = drift
     chk.extra["matcher_arm_coverage"] = arm_runs      # real runs that agree with a model run through the arm
     silent = [a for a in ARMS if arm_runs[a] == 0 and not chk.violations]
@@ -448,19 +456,18 @@ def run(tier):
         raise core.ToolError("arms of the transcribed matcher never exercised by a conforming real run: %s" % silent)
     chk.extra["list_length_bound"] = bounds
 
-    core.log("compared %d real outcomes (%.0fs)" % (len(vecs), __import__("time").time() - chk.t0))
     # ---- the cause buffer
     n_cause, nt_cause = check_cause(chk, bindir, tier)
     chk.extra["model_conformance"] = drift == 0 and chk.extra["cause_buffer_drift"] == 0
 
     # ---- judge: non-UTF-8, long, random, mutated
-    ji = judge_inputs(rng, tier, vec_render)
+    ji = judge_inputs(rng, tier, render_sample)
     jl = run_driver(chk, bindir, ji, "judge")
     recs = []
     for v, raw in zip(ji, jl):
         side_checks(chk, v["s"], v["a"], raw)
         recs.append({"s": v["s"], "a": v["a"], "out": normalise(raw)})
-    core.log("judging %d recorded runs (%.0fs)" % (len(recs), __import__("time").time() - chk.t0))
+    core.log("judging %d recorded runs (%.0fs)" % (len(recs), time.time() - chk.t0))
     bad = judge_with_tlc(chk, recs, "j")
     chk.evaluations += len(recs)
     chk.traces += len(recs) - len(bad)
@@ -481,7 +488,7 @@ def run(tier):
                 "observed class, length) with a non-empty list + distinct (shape, input class, observed class) of judged lists + "
                 "cause sequences longer than 100 bytes"
                 % ("%d" % maxlen if tier == "quick" else "%d (%d for alphabets of <= 12 tokens)" % (maxlen, maxlen + 1),
-                   NS, n_lists, len(vec_render), len(recs), 300 if tier == "quick" else 131071, n_cause))
+                   NS, n_lists, n_render, len(recs), 300 if tier == "quick" else 131071, n_cause))
     chk.assumptions = [
         "arguments contain no NUL byte (they are NUL-terminated strings handed over by the start-up code)",
         "undocumented points are policies, every policy admitted: a single-valued option given twice (first / last / error), "
@@ -495,7 +502,7 @@ def run(tier):
     ]
     chk.extra["shapes"] = per_shape
     chk.extra["tlc_generated_lists"] = n_lists
-    chk.extra["tlc_generated_renderings"] = len(vec_render)
+    chk.extra["tlc_generated_renderings"] = n_render
     chk.extra["tlc_judged_records"] = len(recs)
     chk.extra["cause_buffer_vectors"] = n_cause
     return chk.finish()
@@ -535,6 +542,9 @@ def replay(path):
     rp = json.load(open(path))["replay"]
     chk = core.Check(PID, "quick", "model_checking")
     bindir = core.cargo_build(bins=["clishapes"])
+    if rp.get("mode") == "help":
+        print(core.run_cmd([os.path.join(bindir, "clishapes"), "helps"]).stdout)
+        return 0
     if rp.get("mode") == "cause":
         p = os.path.join(chk.work, "replay_cause.ndjson")
         core.write_ndjson(p, [{"pieces": rp["pieces"]}])
